@@ -374,6 +374,8 @@ def mutated_vars(stmts, mod, cls):
             lname, sig = r
             if sig is None:
                 raise NeedsLater()
+            if sig.get("is_init"):
+                continue          # a constructor call builds a new object, it does not touch this one
             for o in sig["outs"]:
                 if o.startswith("self_") and o not in sig["pnames"]:
                     out.add(o)
